@@ -15,7 +15,8 @@
 
    C19_s3_mutex is NOT a theorem of the code as it stands: release() is GET-then-unconditional-
    DELETE, and a releaser paused past its lease deletes its successor's lock.  The full statement is
-   the Definition s3_mutex_full (Model/Lock.v); C19_s3_mutex_refuted exhibits the schedule;
+   the Definition s3_mutex_full (Model/Lock.v; its first argument cd = false is the code as it stands,
+   cd = true a variant with a conditional DELETE); C19_s3_mutex_refuted exhibits the schedule;
    C19_s3_mutex_partial proves mutual exclusion for every run in which no release's DELETE lands
    after the releaser's own lease lapsed (ghost flag late_delete = false). *)
 From Coq Require Import ZArith NArith List Bool.
@@ -93,9 +94,9 @@ Print Assumptions C19_flock_ok_only_when_free.
 
 (* Ownership of an existing lock object passes to another client only when the object's age exceeds
    the lease at that very instant (and the new object is stamped with that instant). *)
-Theorem C19_s3_takeover_after_lease : forall (lease rsleep : Z) (evs : list sevent) (ev : sevent) (o o' : lobj),
-  let s := srun lease rsleep sinit evs in
-  let s' := sstep lease rsleep s ev in
+Theorem C19_s3_takeover_after_lease : forall (cd : bool) (lease rsleep : Z) (evs : list sevent) (ev : sevent) (o o' : lobj),
+  let s := srun cd lease rsleep sinit evs in
+  let s' := sstep cd lease rsleep s ev in
   obj s = Some o -> obj s' = Some o' -> owner o' <> owner o ->
   snow s - lm o > lease /\ lm o' = snow s.
 Proof. exact s3_takeover_after_lease. Qed.
@@ -104,26 +105,26 @@ Print Assumptions C19_s3_takeover_after_lease.
 (* Once the lock object is somebody else's (a takeover landed) and as long as `a` does not call
    acquire() again: the object never becomes a's, no is_held() of a returns True, no renewal of a has any
    effect on the store, and a served renewal makes a drop is_locked. *)
-Theorem C19_s3_superseded : forall (lease rsleep : Z) (evs1 evs2 : list sevent) (a : N),
-  let s1 := srun lease rsleep sinit evs1 in
+Theorem C19_s3_superseded : forall (cd : bool) (lease rsleep : Z) (evs1 evs2 : list sevent) (a : N),
+  let s1 := srun cd lease rsleep sinit evs1 in
   foreign s1 a ->
   forallb (fun ev : sevent => negb (is_acquire_of a ev)) evs2 = true ->
-  let s2 := srun lease rsleep s1 evs2 in
+  let s2 := srun cd lease rsleep s1 evs2 in
   foreign s2 a
   /\ (forall (f : fault) (j : Z),
-        s_res (scl s2 a) <> STrue -> s_res (scl (sstep lease rsleep s2 (SStep a f j)) a) <> STrue)
-  /\ (forall f : fault, obj (sstep lease rsleep s2 (SRenew a f)) = obj s2)
+        s_res (scl s2 a) <> STrue -> s_res (scl (sstep cd lease rsleep s2 (SStep a f j)) a) <> STrue)
+  /\ (forall f : fault, obj (sstep cd lease rsleep s2 (SRenew a f)) = obj s2)
   /\ (forall e : N,
         s_alive (scl s2 a) = true -> hb (scl s2 a) = true -> is_locked (scl s2 a) = true ->
         my_etag (scl s2 a) = Some e ->
-        is_locked (scl (sstep lease rsleep s2 (SRenew a FNone)) a) = false).
+        is_locked (scl (sstep cd lease rsleep s2 (SRenew a FNone)) a) = false).
 Proof. exact s3_superseded. Qed.
 Print Assumptions C19_s3_superseded.
 
 (* is_held() returns True only as the reply to a served GET whose body is the caller's own lock id:
    the caller owned the object at the time of the read.  (Any state, reachable or not.) *)
-Theorem C19_s3_is_held_sound : forall (lease rsleep : Z) (s : sstate) (ev : sevent) (c : N),
-  s_res (scl s c) <> STrue -> s_res (scl (sstep lease rsleep s ev) c) = STrue ->
+Theorem C19_s3_is_held_sound : forall (cd : bool) (lease rsleep : Z) (s : sstate) (ev : sevent) (c : N),
+  s_res (scl s c) <> STrue -> s_res (scl (sstep cd lease rsleep s ev) c) = STrue ->
   exists (f : fault) (j : Z) (second : bool) (o : lobj),
     ev = SStep c f j /\ s_pc (scl s c) = QHeldGet second /\ obj s = Some o /\ owner o = c.
 Proof. exact s3_is_held_sound. Qed.
@@ -132,8 +133,8 @@ Print Assumptions C19_s3_is_held_sound.
 (* TimeoutError is raised at a reading t with start+timeout <= t, and t < start+timeout+maxgap
    (maxgap = the largest clock advance between two consecutive time.time() readings of this acquire();
    at most the longest sleep, 0.9 s, when time passes only in this client's sleeps). *)
-Theorem C19_s3_timeout : forall (lease rsleep : Z) (evs : list sevent) (c : N),
-  let x := scl (srun lease rsleep sinit evs) c in
+Theorem C19_s3_timeout : forall (cd : bool) (lease rsleep : Z) (evs : list sevent) (c : N),
+  let x := scl (srun cd lease rsleep sinit evs) c in
   s_res x = STimeout ->
   s_start x + s_timeout x <= t_ret x
   /\ t_ret x <= Z.max (s_start x) (s_start x + s_timeout x) + s_maxgap x
@@ -143,30 +144,45 @@ Print Assumptions C19_s3_timeout.
 
 (* acquire() returns True only when the lock object was absent or older than the lease at the instant
    its conditional write landed -- never while another holder's object is within its lease. *)
-Theorem C19_s3_ok_only_when_unowned : forall (lease rsleep : Z) (evs : list sevent) (ev : sevent) (c : N),
-  let s := srun lease rsleep sinit evs in
-  s_res (scl s c) <> SOk -> s_res (scl (sstep lease rsleep s ev) c) = SOk ->
+Theorem C19_s3_ok_only_when_unowned : forall (cd : bool) (lease rsleep : Z) (evs : list sevent) (ev : sevent) (c : N),
+  let s := srun cd lease rsleep sinit evs in
+  s_res (scl s c) <> SOk -> s_res (scl (sstep cd lease rsleep s ev) c) = SOk ->
   (obj s = None \/ (exists o : lobj, obj s = Some o /\ snow s - lm o > lease))
-  /\ obj (sstep lease rsleep s ev) = Some (fresh_obj s c).
+  /\ obj (sstep cd lease rsleep s ev) = Some (fresh_obj s c).
 Proof. exact s3_ok_only_when_unowned. Qed.
 Print Assumptions C19_s3_ok_only_when_unowned.
 
 (* FULL statement (Definition s3_mutex_full lease rsleep := forall evs, s3_mutex_at lease (srun ... evs)):
    at every instant at most one client is a live holder (believes it holds, has not started releasing,
    lease counted from its last acknowledged write not lapsed).  FALSE of the code as it stands: *)
-Theorem C19_s3_mutex_refuted : ~ s3_mutex_full default_lease_ms held_retry_sleep_ms.
+Theorem C19_s3_mutex_refuted : ~ s3_mutex_full false default_lease_ms held_retry_sleep_ms.
 Proof. exact s3_mutex_refuted. Qed.
 Print Assumptions C19_s3_mutex_refuted.
+
+(* The hypothesis of C19_s3_mutex_partial cannot be weakened to "the DELETE lands within one lease of the
+   release's own GET": a run where it lands 1.002 s after the GET and two holders are live. *)
+Theorem C19_s3_mutex_gap_hypothesis_insufficient :
+  let s := srun false default_lease_ms held_retry_sleep_ms sinit gap_witness in
+  holder_live default_lease_ms s 1%N /\ holder_live default_lease_ms s 2%N /\ snow s = 60002 /\ late_delete s = true.
+Proof. exact release_gap_hypothesis_insufficient. Qed.
+Print Assumptions C19_s3_mutex_gap_hypothesis_insufficient.
 
 (* ... and TRUE for every run in which no release()'s DELETE landed after the releaser's own lease had
    lapsed; then every live holder is moreover the owner of the lock object. *)
 Theorem C19_s3_mutex_partial : forall (lease rsleep : Z) (evs : list sevent),
-  let s := srun lease rsleep sinit evs in
+  let s := srun false lease rsleep sinit evs in
   late_delete s = false ->
   s3_mutex_at lease s
   /\ (forall c : N, holder_live lease s c -> exists o : lobj, obj s = Some o /\ owner o = c).
-Proof. exact s3_mutex_partial. Qed.
+Proof. exact s3_mutex_partial_unconditional. Qed.
 Print Assumptions C19_s3_mutex_partial.
+
+(* The repair the finding calls for, checked in the same model: if release()'s DELETE is conditional on the
+   releaser's own ETag (cd = true), the FULL mutual-exclusion statement holds for every run.  (Not what
+   the code does; S3 If-Match on DELETE is not universally available.) *)
+Theorem C19_s3_mutex_conditional_delete : forall (lease rsleep : Z), s3_mutex_full true lease rsleep.
+Proof. exact s3_mutex_conditional_delete. Qed.
+Print Assumptions C19_s3_mutex_conditional_delete.
 
 (* ------------------------------------------------------------------------------------------------
    Non-vacuity: the hypotheses are met by concrete, non-trivial reachable states.
@@ -188,8 +204,8 @@ Example C19_nonvacuous :
       holding s 0%N /\ pc (cl s 1%N) = PFlock 1%N
       /\ let s'' := fstep kernel_grant poll_ms (fstep kernel_grant poll_ms s (EDie [0%N])) (EStep 1%N) in
          res (cl s'' 1%N) = ROk)
-  /\ (let s := srun default_lease_ms held_retry_sleep_ms sinit ex_s3 in
-      let s' := sstep default_lease_ms held_retry_sleep_ms s (SStep 1%N FNone 300) in
+  /\ (let s := srun false default_lease_ms held_retry_sleep_ms sinit ex_s3 in
+      let s' := sstep false default_lease_ms held_retry_sleep_ms s (SStep 1%N FNone 300) in
       late_delete s' = false
       /\ (exists o o', obj s = Some o /\ obj s' = Some o' /\ owner o = 0%N /\ owner o' = 1%N /\ lm o = 20000 /\ snow s = 90000)
       /\ holder_live default_lease_ms s' 1%N /\ is_locked (scl s' 0%N) = true /\ foreign s' 0%N).
